@@ -280,11 +280,13 @@ Definition num_int (repr : str) : Z := q_trunc (rnd32 (repr_value repr)).
 (* matchInt, nth.go:84: ^n(-[0-9]+)$ then strconv.Atoi *)
 Definition match_int (s : str) : option Z :=
   match s with
-  | 110 :: 45 :: d =>
-      match d with
-      | [] => None
-      | _ => if forallb is_digit d then repr_int (45 :: d) else None
-      end
+  | c0 :: c1 :: d =>
+      if (c0 =? 110) && (c1 =? 45) then
+        match d with
+        | [] => None
+        | _ => if forallb is_digit d then repr_int (45 :: d) else None
+        end
+      else None
   | _ => None
   end.
 
